@@ -649,7 +649,7 @@ def main():
         }
     else:
         fams = {
-            "A": dict(vals=[0, 1, 2, 3, 4, 5], minlen=1, maxlen=6, bins=[3, 5, 9], ess=ess, margin=MARGIN, budget=None),
+            "A": dict(vals=[0, 1, 2, 3, 4, 5], minlen=1, maxlen=6, bins=[3, 9], ess=ess, margin=MARGIN, budget=None),
             "B": dict(vals=[0, 1, 2, 4, 8, 16], minlen=1, maxlen=5, bins=[1, 2, 3, 5, 8], ess=ess, margin=MARGIN, budget=None),
             "C": dict(vals=[0, 1, 2, 3], minlen=5, maxlen=5, bins=[34, 100], ess=ess, margin=50, budget=None),
         }
